@@ -618,6 +618,46 @@ func init() {
 	symbolicStd["strings.ToLower"] = func(fr *frame, args []value) value {
 		return fr.i.ex.lowerRope(toRope(args[0]), "lower")
 	}
+	// strings.ContainsAny(s, chars) with a symbolic s and concrete chars: literal pieces are inspected;
+	// CR/LF is the clean attribute of a token; the characters that open a glob wildcard or class
+	// (* ? [) never occur in an opaque token (patterns with wildcards are given as literals, and the
+	// realisation of a symbolic pattern uses an alternation {a,b}); single symbolic bytes are compared.
+	symbolicStd["strings.ContainsAny"] = func(fr *frame, args []value) value {
+		e := fr.i.ex
+		chars, ok := args[1].(string)
+		if !ok {
+			panic(abortPath{why: "strings.ContainsAny with symbolic character set", kind: "unsupported"})
+		}
+		var acc value = false
+		for _, x := range normRope(toRope(args[0]).p) {
+			switch x.k {
+			case pLit:
+				if strings.ContainsAny(x.lit, chars) {
+					return true
+				}
+			case pItoa, pUtoa:
+				if strings.ContainsAny("0123456789-", chars) {
+					panic(abortPath{why: "strings.ContainsAny of digits in a rendered number", kind: "unsupported"})
+				}
+			case pByte:
+				for k := 0; k < len(chars); k++ {
+					acc = symOr(acc, symBool{fmt.Sprintf("(= %s #x%02x)", x.t, chars[k])})
+				}
+			case pTok:
+				switch {
+				case strings.Trim(chars, "\r\n") == "":
+					acc = symOr(acc, symBool{"(not (clean " + x.t + "))"})
+				case strings.Trim(chars, "*?[") == "":
+					e.Stats.Assumptions["opaque tokens contain none of the glob characters * ? [ (patterns with wildcards are literals; symbolic patterns are realised as alternations)"] = true
+				default:
+					panic(abortPath{why: "strings.ContainsAny(" + chars + ") of an opaque token", kind: "unsupported"})
+				}
+			default:
+				panic(abortPath{why: "strings.ContainsAny of a rendered float", kind: "unsupported"})
+			}
+		}
+		return acc
+	}
 	symbolicStd["strings.ToUpper"] = func(fr *frame, args []value) value {
 		return fr.i.ex.lowerRope(toRope(args[0]), "upper")
 	}
